@@ -141,6 +141,11 @@ def _compute_point(b):
     return bits.compute_point(b)
 
 
+def _pub(b, compressed):
+    import bits.keys
+    return bits.keys.pub(b, compressed=compressed)
+
+
 def _keygen(draw, from_top=False):
     """secrets.randbelow(bound) returns `draw`, or bound-1-draw when from_top (the largest values the source can return)"""
     import bits.keys
@@ -160,7 +165,7 @@ def _keygen(draw, from_top=False):
 
 
 IMPL = {"add": _add, "mul": _mul, "neg": _neg, "on": _on, "distrib": _distrib, "assoc": _assoc,
-        "privkey_int": _privkey_int, "compute_point": _compute_point, "keygen": _keygen}
+        "privkey_int": _privkey_int, "compute_point": _compute_point, "keygen": _keygen, "pub": _pub}
 
 
 def model_call(c):
@@ -183,6 +188,8 @@ def model_call(c):
         return "c03_privkey_int", [N, a[0]]
     if op == "compute_point":
         return "c03_compute_point", [P, 0, N, (GX, GY), a[0]]
+    if op == "pub":
+        return "c03_pub", [P, 0, N, (GX, GY), a[0], a[1]]
     if op == "keygen":
         # the correct bound of the random source is n-1: its largest value is n-2
         return "c03_key_of_draw", [(N - 2 - a[0]) if (len(a) > 1 and a[1]) else a[0]]
@@ -261,6 +268,18 @@ def prop_oracle(c):
             return "invalid private key accepted"
         want = ref_mul(CURVES["secp"], int.from_bytes(b, "big"), (GX, GY))
         return None if _pt(v) == want else "public key is not k*G"
+    if op == "pub":
+        b, comp = a
+        valid = len(b) == 32 and 1 <= int.from_bytes(b, "big") < N
+        try:
+            v = _pub(b, comp)
+        except (AssertionError, ValueError):
+            return None if not valid else "keys.pub refuses a valid private key"
+        if not valid:
+            return "keys.pub accepts %r, which is not 32 bytes encoding an integer in [1, n-1]" % b.hex()
+        Q = ref_mul(CURVES["secp"], int.from_bytes(b, "big"), (GX, GY))
+        want = (bytes([2 + (Q[1] & 1)]) + Q[0].to_bytes(32, "big")) if comp else (b"\x04" + Q[0].to_bytes(32, "big") + Q[1].to_bytes(32, "big"))
+        return None if v == want else "keys.pub is not the SEC1 encoding of k*G"
     if op == "keygen":
         k, seen = _keygen(*a)
         bound = seen[0] if seen else None
@@ -344,6 +363,12 @@ def gen_cases(rng, tier):
         out.append(case("pub-is-kG", "compute_point", v.to_bytes(32, "big")))
     for b in [(0).to_bytes(32, "big"), N.to_bytes(32, "big"), b"\x01" * 31]:
         out.append(case("pub-invalid", "compute_point", b, strict=True))
+    # --- keys.pub: the same refusal rule through the wrapper (short / long / padded encodings of small keys incl.)
+    for b in [b"", b"\x01", b"\x00\x01", b"\x01" * 31, b"\x00" * 31 + b"\x01", b"\x00" * 32 + b"\x01", b"\x05" * 33,
+              (0).to_bytes(32, "big"), N.to_bytes(32, "big"), (N - 1).to_bytes(32, "big"), (2 ** 256 - 1).to_bytes(32, "big"),
+              (7).to_bytes(31, "big"), (7).to_bytes(33, "big"), rng.randbytes(16)]:
+        for comp in (True, False):
+            out.append(case("pub-wrapper", "pub", b, comp, strict=(len(b) != 32)))
     # --- key generation: every boundary of the random source
     for d in [0, 1, 2, N - 3, N - 2] + [rng.randrange(0, N - 1) for _ in range(10)]:
         out.append(case("keygen-draw", "keygen", d))
